@@ -147,6 +147,13 @@ fn case_strategy() -> impl Strategy<Value = TrainCase> {
                 2 => c.corpus.iter_mut().for_each(|r| r.labels.iter_mut().for_each(|l| if *l == WB { *l = NB })),
                 3 => c.corpus.iter_mut().for_each(|r| r.labels.iter_mut().for_each(|l| if *l == NB { *l = WB })),
                 4 => c.corpus.iter_mut().for_each(|r| r.labels.iter_mut().for_each(|l| *l = UNK)),
+                // degenerate dictionaries: a blank entry (among other words), the same word twice
+                5 => c.cfg.dict.insert(c.cfg.dict.len() / 2, String::new()),
+                6 => {
+                    if let Some(w) = c.cfg.dict.first().cloned() {
+                        c.cfg.dict.push(w);
+                    }
+                }
                 _ => {}
             }
             let ps = [&mut c.cfg.charw, &mut c.cfg.charn, &mut c.cfg.typew, &mut c.cfg.typen];
